@@ -639,7 +639,9 @@ async def process_changing_cause(
 
     # Regular causes also do some implicit post-handling when all handlers are done.
     if done or skip:
-        if cause.new is not None and cause.old != cause.new:
+        # NB: not only `old != new`: in Python, `True == 1` & `False == 0`, while the diff (and so the cause)
+        # tells booleans from numbers. Without storing, such an update would be detected again and again.
+        if cause.new is not None and (cause.old != cause.new or cause.diff):
             settings.persistence.diffbase_storage.store(body=body, patch=patch, essence=cause.new)
 
         # Once all handlers have succeeded at least once for any reason, or if there were none,
